@@ -64,7 +64,9 @@ func ValidateSchemaDocument(sd *SchemaDocument) (*Schema, error) {
 		switch def.Kind {
 		case Union:
 			for _, t := range def.Types {
-				schema.AddPossibleType(def.Name, schema.Types[t])
+				if member := schema.Types[t]; member != nil {
+					schema.AddPossibleType(def.Name, member)
+				}
 				schema.AddImplements(t, def)
 			}
 		case InputObject, Object:
